@@ -250,7 +250,7 @@ func init() {
 	// ---- C10 ----
 	{
 		p := &Prop{ID: "C10", Outside: []string{
-			"real goroutine interleavings of LintFiles, GOMAXPROCS, the Go race detector: the scheduler is not SSA; what is decided is that no store instruction reachable from linting one file writes memory shared between files (package-level tables, the shared Config), which rules out races on those objects for every schedule",
+			"data races beyond the race harness: it records the memory accesses of one sequential run of LintFiles on 2 x 3 (3 x 4) files x steps at memory-cell granularity (append into spare capacity of a shared backing array and accesses inside non-interpreted library code are not seen), treats mutexes as protection and decides ordering by other synchronisation with the solver on the extracted schedule model; atomics and channels do not occur; besides, no store instruction reachable from linting one file writes memory that existed before (package-level tables, the shared Config)",
 			"per-file equality of multi-file and single-file runs beyond the two-repository / three-file family of the multi-file harness (file system, findProject and configuration loading are virtual there); local action / reusable workflow caches (file system, reflection-driven decoding)",
 			"paths outside the alphabet {/, a, b, .} or longer than the bound; non-clean or relative paths (filepath.Abs is modelled as the identity on absolute clean paths)",
 		}}
@@ -262,12 +262,14 @@ func init() {
 			{Entry: "HarnessC10Types", Args: []int64{3}, Bound: "... T 3 arbitrary bytes", Require: []string{"reported"}},
 		}
 		p.Quick = append(p.Quick, HRun{Entry: "HarnessC10MultiFile", Bound: "two repositories with their own configuration, three files (runner label two symbolic lower-case letters), LintFiles in 6 argument orders vs each file linted alone; configurations write-monitored", Require: []string{"linted"}})
+		p.Quick = append(p.Quick, HRun{Entry: "HarnessC10Races", Args: []int64{2, 3}, Bound: "LintFiles on 2 files x 3 run steps (shellcheck + pyflakes, one issue per script), 2 CPUs: every pair of accesses to one memory cell by two goroutines, one a write, without a common mutex, is ordered by the synchronisation in every schedule (solver query per pair on the schedule model)", Require: []string{"linted", "race-analysis-done"}})
 		for _, lens := range [][2]int64{{1, 1}, {1, 3}, {2, 2}, {2, 4}, {2, 5}, {3, 2}, {3, 3}, {3, 5}, {3, 6}, {4, 6}} {
 			p.Quick = append(p.Quick, HRun{Entry: "HarnessC10Knows", Args: []int64{lens[0], lens[1]}, Bound: "all roots / paths of these lengths over {/,a,b,.}"})
 		}
 		p.Thorough = append(append([]HRun{}, p.Quick...),
 			HRun{Entry: "HarnessC10Echo", Args: []int64{2, 0}, Bound: "2 arbitrary bytes at every scalar", Require: []string{"linted"}},
 			HRun{Entry: "HarnessC10Echo", Args: []int64{2, 1}, Bound: "${{ vars.XY }}", Require: []string{"linted"}},
+			HRun{Entry: "HarnessC10Races", Args: []int64{3, 4}, Bound: "race analysis on 3 files x 4 run steps", Require: []string{"linted", "race-analysis-done"}},
 			HRun{Entry: "HarnessC10Knows", Args: []int64{4, 7}, Bound: "roots of 4, paths of 7 bytes"},
 			HRun{Entry: "HarnessC10Knows", Args: []int64{5, 7}, Bound: "roots of 5, paths of 7 bytes"},
 		)
